@@ -13,11 +13,11 @@ def file_hash(path):
     return h.hexdigest()[:12]
 
 
-def generate(lalrpop_bin, g, mode, ascent=False, workdir=None, extra_args=()):
+def generate(lalrpop_bin, g, mode, ascent=False, workdir=None, extra_args=(), probes=0):
     """Run lalrpop on grammar g in the given construction mode; returns (status, rs_path, output).
     status: 'ok' | 'conflict' | 'error' | 'panic' | 'timeout'"""
     env, lalr = MODES[mode]
-    text = g.render(lalr=lalr, ascent=ascent)
+    text = g.render(lalr=lalr, ascent=ascent, probes=probes)
     key = hashlib.sha1((file_hash(lalrpop_bin) + mode + str(ascent) + text).encode()).hexdigest()[:16]
     d = workdir or os.path.join(vlib.CACHE, "lr", key)
     rs = os.path.join(d, "g.rs")
